@@ -260,7 +260,7 @@ func c17IPP(c *core.Ctx) {
 	docs := map[string][]byte{"doc0": {}, "doc1": {0x41}, "doc1k": bytes.Repeat([]byte{0xa5, 0x00, 0x03, 0x44}, 256), "doc-00-00": {0, 0, 1, 2}, "doc-03": {3, 3, 3}, "doc-44": {0x44, 0, 1, 'x'}}
 	docOrder := []string{"doc0", "doc1", "doc1k", "doc-00-00", "doc-03", "doc-44"}
 	if c.Thorough() {
-		docs["doc64k"] = bytes.Repeat([]byte("%PDF-1.4 \x00\x03\x01\xff"), 4682)[:65536]
+		docs["doc64k"] = bytes.Repeat([]byte("%PDF-1.4 \x00\x03\x01\xff"), 5100)[:65536]
 		docOrder = append(docOrder, "doc64k")
 	}
 	extras := ippExtras(c.Thorough())
